@@ -200,6 +200,22 @@ func checkAll(db *model.DB, fail func(key, what string)) {
 		if got := idsOf(conn.MustDo("INTERSECTS", k, "LIMIT", "100000", "IDS", "BOUNDS", "-90", "-180", "90", "180")); strings.Join(got, "\x00") != strings.Join(geoms, "\x00") {
 			fail("path-spatial", fmt.Sprintf("INTERSECTS %q BOUNDS world returns %q, the retrievable non-empty geometries are %q", k, got, geoms))
 		}
+		// spatial COUNT over a covering area must equal the ids the same search returns
+		for _, q := range [][]string{
+			{"INTERSECTS", k, "COUNT", "BOUNDS", "-90", "-180", "90", "180"},
+			{"WITHIN", k, "COUNT", "BOUNDS", "-90", "-180", "90", "180"},
+			{"INTERSECTS", k, "COUNT", "TILE", "0", "0", "0"},
+			{"INTERSECTS", k, "COUNT", "QUADKEY", "0"},
+		} {
+			idq := append([]string{q[0], q[1], "LIMIT", "100000", "IDS"}, q[3:]...)
+			want := int64(len(idsOf(conn.MustDo(idq...))))
+			if q[3] == "BOUNDS" {
+				want = int64(len(geoms))
+			}
+			if v := conn.MustDo(q...); v.Kind != ':' || v.Int != want {
+				fail("spatial-count", fmt.Sprintf("%s = %s, the same search returns %d ids (%d non-empty geometries are retrievable)", t38.CmdString(q), v, want, len(geoms)))
+			}
+		}
 		if got := idsOf(conn.MustDo("NEARBY", k, "LIMIT", "100000", "IDS", "POINT", "0", "0")); strings.Join(got, "\x00") != strings.Join(geoms, "\x00") {
 			fail("path-nearby", fmt.Sprintf("NEARBY %q returns %q, the retrievable non-empty geometries are %q", k, got, geoms))
 		}
